@@ -32,9 +32,9 @@ def _run_success_batch(probes):
         o = core.run_one({"src": r.text})
         runs += 1
         shas.add(core.sha(r.text)[:12])
-        if o.timeout or o.stack_overflow:
-            return viol, nobs, runs, shas, "timeout/stack overflow in a batch"
-        if o.crashed:
+        if o.timeout:
+            return viol, nobs, runs, shas, "timeout in a batch"
+        if o.died:
             viol.append(("crash", "crash in probe batch: " + o.err.decode("utf-8", "replace")[-300:], r.text, None))
             return viol, nobs, runs, shas, None
         # split the output by markers
@@ -90,9 +90,9 @@ def _run_failing(k, pr):
     r = P.render(prog)
     o = core.run_one({"src": r.text})
     sha = core.sha(r.text)[:12]
-    if o.timeout or o.stack_overflow:
-        return None, sha, "timeout/stack"
-    if o.crashed:
+    if o.timeout:
+        return None, sha, "timeout"
+    if o.died:
         return ("crash/" + pr["tag"], "%s crashed: %s" % (pr["what"], o.err.decode("utf-8", "replace")[-300:]), r.text, pr), sha, None
     if o.code == 0:
         return ("accepted/" + pr["tag"], "%s must be a reported error but succeeded, printing %s" % (
